@@ -18,6 +18,19 @@ CHECKS["C03"] = ("exploration", "decode / re-encode / decode differential monito
     "Every input of the C02 corpus plus targeted non-canonical forms that decodes is re-encoded with the real encoder and decoded again; the two decoded values must be equal. A violation is a concrete byte string.",
     "equality oracle as in C01; only inputs that decode exercise the oracle (count reported in evidence)", "3/C03")
 
+CHECKS["C04"] = ("exploration", "NodeID text round-trip and equality monitor against an independent identity model",
+    "Exhaustive over all string ids of length <= 4 from a separator/prefix alphabet in namespaces 0 and 1 and over a numeric boundary grid, plus random ids and near-collision pairs through the public constructors; compares ParseNodeID(String()), Equal, nsu= resolution and registry lookups with an independent (namespace, kind, value) identity.",
+    "GUID ids from well-formed text; namespace URIs without ';'", "3/C04")
+CHECKS["C14"] = ("exploration", "differential monitor of derived symmetric keys against an independent P_SHA/HMAC/AES-CBC implementation",
+    "For generated nonce pairs the public uapolicy.Symmetric objects of both sides must produce exactly the signature and ciphertext of the Part 6 keys computed independently, verify/decrypt each other, and reject their own output (direction separation).",
+    "Go crypto stdlib trusted and shared", "3/C14")
+CHECKS["C15"] = ("exploration", "asymmetric crypto monitor: every plaintext length, key-limit matrix, differential against reference RSA schemes",
+    "All 5 policies x 25 key size pairs: construction must fail exactly outside the policy limits; every plaintext length 0..3 blocks+1 round-trips and is cross-decrypted by an independent implementation; signatures verified, tampered and checked under wrong keys.",
+    "Go crypto/rsa trusted and shared; committed test keys", "3/C15")
+CHECKS["C24"] = ("exploration", "model-based monitor of endpoint selection (independent match/maximum model)",
+    "Exhaustive over short endpoint lists from a policy x mode x level alphabet times all query forms, plus random longer lists with duplicates; the result must be a matching endpoint of maximal level, error iff nothing matches.",
+    "lists without nil entries", "3/C24")
+
 NOT_YET = {}
 
 
